@@ -182,9 +182,9 @@ func (cfg *Config) VMOpts() []vm.Option {
 	cfg.init()
 	var opts []vm.Option
 	globals := cfg.globals
-	if len(globals) > 0 {
-		opts = append(opts, vm.WithGlobals(globals))
-	}
+	// An empty set of globals is passed on too: on a reused VM it says that
+	// this run has none, which differs from not saying anything
+	opts = append(opts, vm.WithGlobals(globals))
 	importer := cfg.importer
 	if importer == nil && cfg.localImportPath != "" {
 		var names []string
